@@ -21,7 +21,7 @@ def load_parse_folder(repo):
     return PF
 
 
-def make_batch(root, ids, seed=0, n_lines=2, decoder=None, lm_seed=None, ocr=True, img_size=(300, 400)):
+def make_batch(root, ids, seed=0, n_lines=2, decoder=None, lm_seed=None, ocr=True, img_size=(300, 400), foreign_image_names=()):
     """decoder: None | dict(carry=bool, threshold=float|None, beam=int, lm_scale=float)"""
     import cv2
     from pero_ocr.core.layout import PageLayout, RegionLayout, TextLine
@@ -34,7 +34,8 @@ def make_batch(root, ids, seed=0, n_lines=2, decoder=None, lm_seed=None, ocr=Tru
     for pid in ids:
         img = rng.integers(1, 255, size=img_size + (3,), dtype=np.uint8)
         cv2.imwrite('%s/img/%s.png' % (root, pid), img)
-        pl = PageLayout(id=pid, page_size=img_size)
+        # input PAGE XML written by another tool: Page/@imageFilename is not the file stem
+        pl = PageLayout(id=('scan_%s.tif' % pid.strip('.')) if pid in foreign_image_names else pid, page_size=img_size)
         reg = RegionLayout('r0', np.array([[10, 10], [img_size[1] - 10, 10], [img_size[1] - 10, img_size[0] - 10], [10, img_size[0] - 10]]))
         for l in range(n_lines):
             y = 60 + l * 70
@@ -65,7 +66,20 @@ def make_batch(root, ids, seed=0, n_lines=2, decoder=None, lm_seed=None, ocr=Tru
 OPT = {'xml': 'xml', 'render': 'render', 'logits': 'logit', 'alto': 'alto', 'line': 'line', 'lmdb': 'line'}     # a line path containing 'lmdb' selects the LMDB export of the crops
 
 
-def argv_for(root, out, kinds, skip=True, extra=()):
+CFG_KEY = {'xml': 'OUTPUT_XML_PATH', 'render': 'OUTPUT_RENDER_PATH', 'logits': 'OUTPUT_LOGIT_PATH', 'alto': 'OUTPUT_ALTO_PATH', 'line': 'OUTPUT_LINE_PATH', 'lmdb': 'OUTPUT_LINE_PATH'}
+
+
+def argv_for(root, out, kinds, skip=True, extra=(), via_config=False):
+    """via_config: the input and output folders are given in the [PARSE_FOLDER] section of the configuration file instead of on the command line"""
+    if via_config:
+        import hashlib
+        cfg = open(root + '/config.ini').read() + '\n[PARSE_FOLDER]\nINPUT_IMAGE_PATH = %s/img\nINPUT_XML_PATH = %s/xml\n' % (root, root)
+        cfg += ''.join('%s = %s/%s\n' % (CFG_KEY[k], out, k) for k in kinds)
+        path = '%s/config_%s.ini' % (root, hashlib.sha1(cfg.encode()).hexdigest()[:10])
+        if not os.path.exists(path):
+            with open(path, 'w') as f:
+                f.write(cfg.replace('%', '%%'))
+        return ['parse_folder.py', '-c', path, '--device', 'cpu'] + (['-s'] if skip else []) + list(extra)
     argv = ['parse_folder.py', '-c', root + '/config.ini', '-i', root + '/img', '-x', root + '/xml', '--device', 'cpu']
     if skip:
         argv.append('-s')
